@@ -805,6 +805,202 @@ def hangul_rule(ck, fns, report, cp_name="cp", cp2_name="cp2"):
     return dict(function=found.name, followed=sorted({x[0] for x in explored}), paths=len(paths), arithmetic_results=n_arith, rows={k: len(v) for k, v in covered.items()})
 
 
+def hangul_decomp_rule(ck, fns, callers, report, cp_name="cp", dest_name="dest"):
+    """clause: the algorithmic Hangul *decomposition* is the inverse of the composition of UAX #15.  The routine computes its three jamo from
+    s = cp - SBase by divisions and remainders with constants; each udiv/urem is replaced by its defining tie x = k*q + r, 0 <= r < k
+    (one lemma: (x % m) % k = x % k when k divides m), the stores to dest[0..3] are collected per path, and on every successful path the
+    stored L, V (, T) must satisfy -- by Fourier-Motzkin entailment from the ties, the path's guards and 0 <= s < SCount --
+        588*(L-LBase) + 28*(V-VBase) + (T-TBase) = s,   0 <= L-LBase, 588*(L-LBase) <= 588*19-1,   0 <= V-VBase, 28*(V-VBase) <= 28*21-1,
+        1 <= T-TBase <= 27 (three jamo) or no T and the sum without it (two jamo), followed by a 0, return value = number of jamo.
+    The mixed-radix representation is unique, so these entail the standard's decomposition.  The precondition SBase <= cp <= SFinal is
+    checked at every call site by interval reachability.  Nothing is evaluated on concrete syllables."""
+    from ..lin import Lin, entails
+    found = None
+    for fn in fns:
+        if cp_name in fn.pnames and dest_name in fn.pnames and any(i["op"] in ("udiv", "urem") for i in fn.insts()) and any(
+                i["op"] == "sub" and i["ops"][0].get("id") == fn.pnames[cp_name]["id"] and i["ops"][1].get("v") == H_SBASE for i in fn.insts()):
+            found = fn
+            break
+    if found is None:
+        ck.fail_broken("Hangul decomposition rule: no routine with (dest, cp) parameters that divides cp - SBase found"); return {}
+    fn = found
+    CP, DEST = fn.pnames[cp_name]["id"], fn.pnames[dest_name]["id"]
+    S = Lin.atom("s")
+    facts = [S, Lin.const(H_SCOUNT - 1) - S]
+    ties = {}
+
+    class Und(Exception):
+        pass
+
+    def tie(x, k):
+        key = (x.key(), k)
+        if key not in ties:
+            n = len(ties)
+            q, r = Lin.atom("q%d" % n), Lin.atom("r%d" % n)
+            ties[key] = (q, r, x)
+            facts.extend([x - q.scale(k) - r, q.scale(k) + r - x, r, Lin.const(k - 1) - r, q])
+            for (xk, k2), (q2, r2, x2) in list(ties.items()):          # lemma: x % k = (x % m) % k when k divides m
+                if xk == x.key() and k2 != k and (k2 % k == 0 or k % k2 == 0):
+                    (rbig, small, rsmall) = (r2, k, r) if k2 % k == 0 else (r, k2, r2)
+                    _, rr, _ = tie(rbig, small)
+                    facts.extend([rsmall - rr, rr - rsmall])
+        return ties[key]
+    rem_of = {}          # atom name of a remainder -> (x, m)
+
+    def val(o, depth=0):
+        if o.get("k") == "c":
+            return Lin.const(o["v"])
+        if o.get("k") != "v" or depth > 16:
+            raise Und("operand")
+        if o["id"] == CP:
+            return S + Lin.const(H_SBASE)
+        d = fn.defs.get(o["id"])
+        if d is None:
+            raise Und("value %s" % o["id"])
+        op = d["op"]
+        if op in ("add", "sub"):
+            a, b = val(d["ops"][0], depth + 1), val(d["ops"][1], depth + 1)
+            return a + b if op == "add" else a - b
+        if op == "mul":
+            a, b = val(d["ops"][0], depth + 1), val(d["ops"][1], depth + 1)
+            if a.is_const():
+                return b.scale(a.c)
+            if b.is_const():
+                return a.scale(b.c)
+            raise Und("product of two variables")
+        if op in ("zext", "trunc", "sext"):
+            return val(d["ops"][0], depth + 1)
+        if op in ("udiv", "urem") and d["ops"][1].get("k") == "c" and d["ops"][1]["v"] > 0:
+            x, k = val(d["ops"][0], depth + 1), d["ops"][1]["v"]
+            if op == "urem" and len(x.t) == 1 and x.c == 0:
+                (a, co), = x.t.items()
+                if co == 1 and a in rem_of and rem_of[a][1] % k == 0:          # (y % m) % k = y % k   when k | m
+                    x = rem_of[a][0]
+            q, r, _ = tie(x, k)
+            if op == "urem":
+                rem_of[next(iter(r.t))] = (x, k)
+                return r
+            return q
+        raise Und("%s (%s)" % (o["id"], op))
+    results = dict(function=fn.name, paths=0, success_paths=0, obligations=0, call_sites=0)
+
+    def slot(ptr):
+        if ptr.get("id") == DEST:
+            return 0
+        d = fn.defs.get(ptr.get("id"))
+        if d is not None and d["op"] == "getelementptr" and d["base"].get("id") == DEST and not d.get("terms"):
+            return d.get("coff", 0) // 4 if d.get("coff", 0) % 4 == 0 else None
+        if d is not None and d["op"] == "bitcast":
+            return slot(d["ops"][0])
+        return None
+
+    def guard(cond, truth):
+        d = fn.defs.get(cond.get("id")) if cond.get("k") == "v" else None
+        if d is None or d["op"] != "icmp":
+            return []
+        try:
+            a, b = val(d["ops"][0]), val(d["ops"][1])
+        except Und:
+            return []
+        pred = d["pred"]
+        if not truth:
+            pred = {"eq": "ne", "ne": "eq", "ugt": "ule", "uge": "ult", "ult": "uge", "ule": "ugt", "sgt": "sle", "sge": "slt", "slt": "sge", "sle": "sgt"}[pred]
+        if pred in ("ugt", "sgt"):
+            return [a - b - Lin.const(1)]
+        if pred in ("uge", "sge"):
+            return [a - b]
+        if pred in ("ult", "slt"):
+            return [b - a - Lin.const(1)]
+        if pred in ("ule", "sle"):
+            return [b - a]
+        if pred == "eq":
+            return [a - b, b - a]
+        if pred == "ne" and b.is_const() and b.c == 0:
+            return [a - Lin.const(1)]          # every value here is unsigned: x != 0 is x >= 1 (x >= 0 is among the tie facts)
+        return []
+
+    def judge(stores, ret, pf, where):
+        results["success_paths"] += 1
+        F = facts + pf
+        key = "C17:hangul-decomposition:%s" % fn.name
+
+        def need(g, what):
+            results["obligations"] += 1
+            if not entails(F, g):
+                report("%s:%s" % (key, what.split(" ")[0]), "H-hangul-decomposition-inverts-composition", "%s:%s" % (fn.file, where),
+                       "%s, path returning %s: %s is not entailed -- the jamo stored do not compose back to the syllable (UAX #15 3.12)" % (fn.name, ret, what))
+                return False
+            return True
+        if ret not in (2, 3) or any(k not in stores for k in range(ret + 1)):
+            report("%s:shape" % key, "H-hangul-decomposition-inverts-composition", "%s:%s" % (fn.file, where),
+                   "%s returns %s having stored dest[%s]: a Hangul syllable decomposes into 2 or 3 jamo followed by a 0" % (fn.name, ret, sorted(stores)))
+            return
+        term = stores[ret]
+        if not (term.is_const() and term.c == 0):
+            need(Lin.const(0) - term, "terminator dest[%d] <= 0" % ret)
+        L, V = stores[0] - Lin.const(H_LBASE), stores[1] - Lin.const(H_VBASE)
+        T = stores[2] - Lin.const(H_TBASE) if ret == 3 else Lin.const(0)
+        total = L.scale(H_VCOUNT * H_TCOUNT) + V.scale(H_TCOUNT) + T
+        need(L, "L-index >= 0"); need(Lin.const(H_VCOUNT * H_TCOUNT * H_LCOUNT - 1) - L.scale(H_VCOUNT * H_TCOUNT), "L-index < 19")
+        need(V, "V-index >= 0"); need(Lin.const(H_TCOUNT * H_VCOUNT - 1) - V.scale(H_TCOUNT), "V-index < 21")
+        if ret == 3:
+            need(T - Lin.const(1), "T-index >= 1"); need(Lin.const(H_TCOUNT - 1) - T, "T-index < 28")
+        need(total - S, "sum >= s (588*L + 28*V + T recomposes the syllable)"); need(S - total, "sum <= s (588*L + 28*V + T recomposes the syllable)")
+
+    def walk(bb, pred_bb, stores, pf, depth=0):
+        if depth > 40:
+            raise Und("path too long")
+        stores = dict(stores)
+        for i in fn.blocks[bb]["insts"]:
+            if i["op"] == "store":
+                k = slot(i["ops"][1])
+                if k is None:
+                    raise Und("store to something other than dest[constant]")
+                stores[k] = val(i["ops"][0])
+            elif i["op"] == "call" and not i.get("intrinsic"):
+                raise Und("call")
+        t = fn.term(bb)
+        if t["op"] == "ret":
+            results["paths"] += 1
+            r = t["ops"][0]
+            d = fn.defs.get(r.get("id")) if r.get("k") == "v" else None
+            if d is not None and d["op"] == "phi" and d["_bb"] == bb:
+                r = next(x["v"] for x in d["incoming"] if x["bb"] == pred_bb)
+            rv = val(r)
+            if not rv.is_const():
+                raise Und("return value not constant")
+            rv = int(rv.c)
+            rv = rv - (1 << 32) if rv >= (1 << 31) else rv
+            if rv >= 0:
+                judge(stores, rv, pf, t.get("line") or fn.line)
+            return
+        if t["op"] != "br":
+            raise Und("terminator %s" % t["op"])
+        if "cond" not in t:
+            return walk(t["t"], bb, stores, pf, depth + 1)
+        for truth, succ in ((True, t["t"]), (False, t["f"])):
+            walk(succ, bb, stores, pf + guard(t["cond"], truth), depth + 1)
+    try:
+        walk(fn.entry, None, {}, [])
+    except Und as e:
+        ck.fail_broken("Hangul decomposition rule: %s in %s is outside the fragment (%s)" % (fn.name, fn.file, e)); return results
+    # precondition at the call sites
+    for cal in callers:
+        for i in cal.insts():
+            if i["op"] == "call" and i.get("callee") == fn.name:
+                pos = list(fn.params).index(CP)
+                a = i["args"][pos]
+                if a.get("k") != "v":
+                    continue
+                results["call_sites"] += 1
+                rs = intervals.reach(cal, a["id"]).get(i["_bb"], [])
+                if not rs or rs[0][0] < H_SBASE or rs[-1][1] > H_SBASE + H_SCOUNT - 1:
+                    report("C17:hangul-decomposition-precondition:%s" % cal.name, "H-hangul-decomposition-inverts-composition", "%s:%s" % (cal.file, i.get("line")),
+                           "%s calls %s with a code point in %s: only U+AC00..U+D7A3 are Hangul syllables" % (cal.name, fn.name, ["U+%04X..U+%04X" % x for x in rs] or "an unknown range"))
+    results["ties"] = len(ties)
+    return results
+
+
 def run(ck):
     mods, info = frontend.load_modules()
     prog = Program(mods)
@@ -898,6 +1094,10 @@ def run(ck):
     hangul = hangul_rule(ck, [f for f in prog.allfuncs if f.mod["tu"] == "src/extwchar/wcsnorm_s.c"], ck.report)
     if hangul and hangul.get("arithmetic_results", 0) < 2:
         ck.fail_broken("Hangul rule: fewer than two arithmetic composition results found")
+    wn = [f for f in prog.allfuncs if f.mod["tu"] == "src/extwchar/wcsnorm_s.c"]
+    hdec = hangul_decomp_rule(ck, wn, wn, ck.report)
+    if hdec and (hdec.get("success_paths", 0) < 2 or hdec.get("call_sites", 0) < 1):
+        ck.fail_broken("Hangul decomposition rule: fewer than two successful paths or no call site found")
     fx = selftest(ck)
     ob = n_acc + n_sites
     cov = dict(explanation="%d loads from constant tables indexed by (code point >> 16) were found in src/extwchar; %d are bounded inside the function; for the others the bound "
@@ -909,7 +1109,7 @@ def run(ck):
                "three-level canonical table decodes, with _decomp_canonical_s's own shifts, masks and address arithmetic (constant-folded over the table contents), to exactly one row of an existing value table, "
                "the returned length is that row's width, and every row of the value tables is referenced." % (n_acc, n_ok, n_sites, len(rej["call_sites"]), layout.get("lists"), decomp.get("distinct_values")),
                obligations=ob, discharged=ob - len({r["key"] for r in ck.reports}), table_accesses=n_acc, bounded_in_place=n_ok, call_site_obligations=n_sites,
-               helpers_relying_on_callers={k: sorted(v) for k, v in need.items()}, rejection=rej, fold_agreement=fold, layout_agreement=layout, decomposition_agreement=decomp, inverse_agreement=inverse, hangul_composition=hangul, fixtures=fx, frontend=info,
+               helpers_relying_on_callers={k: sorted(v) for k, v in need.items()}, rejection=rej, fold_agreement=fold, layout_agreement=layout, decomposition_agreement=decomp, inverse_agreement=inverse, hangul_composition=hangul, hangul_decomposition=hdec, fixtures=fx, frontend=info,
                summary="%d plane-table accesses, %d call-site obligations" % (n_acc, n_sites))
     return ck.finish(cov, ["decided: the table-index clause, the iswfc/towfc_s agreement for multi-character foldings the reader/table layout agreement of the composition lists and the decode agreement of the canonical decomposition tables; UAX #15 conformance, idempotence and the single-character (libc towlower/iswupper) cases are not", "32-bit wchar_t configuration"])
 
@@ -964,4 +1164,10 @@ def selftest(ck):
         out[n] = dict(r, reports=got)
         if sk.broken or sorted({":".join(k.split(":")[:2]) for k in got}) != want:
             ck.fail_broken("fixture c17.c:%s: Hangul composition rule reported %s, expected %s (%s)" % (n, got, want, sk.broken))
+    for n, want in (("fx17_hdec_good", False), ("fx17_hdec_ncount", True), ("fx17_hdec_vmod", True), ("fx17_hdec_always3", True)):
+        got, sk = [], Sink()
+        r = hangul_decomp_rule(sk, [prog.funcs[n]], [], lambda key, *a, **k: got.append(key))
+        out[n] = dict(r, reports=got)
+        if sk.broken or bool(got) != want or not r.get("success_paths"):
+            ck.fail_broken("fixture c17.c:%s: Hangul decomposition rule %s (%s)" % (n, "did not fire" if want else "fired on conforming code", sk.broken or got))
     return out
